@@ -43,9 +43,9 @@ def run_session(rnd, versions, nreaders=4, force_logs=False):
     objs = [KdBufParser() if s['own'] else KdBufParser(d1[0], d1[1]) for s in specs]
     acts, script, gens = [], [], []
 
-    def do_open():
-        r = rnd.randrange(len(objs))
-        fi = rnd.randrange(len(files))
+    def do_open(r=None, fi=None):
+        r = rnd.randrange(len(objs)) if r is None else r
+        fi = rnd.randrange(len(files)) if fi is None else fi
         try:
             it = objs[r].parse(reader_of(rnd, blobs[fi]))
         except Exception as ex:
@@ -86,8 +86,19 @@ def run_session(rnd, versions, nreaders=4, force_logs=False):
     def failed():
         return bool(acts) and 'err' in acts[-1]
 
-    scenario = rnd.choice(['sequential', 'alternate', 'alternate', 'random'])
-    if scenario == 'sequential':          # one parse after the other, on any reader
+    scenario = rnd.choice(['sequential', 'alternate', 'alternate', 'random', 'reparse'])
+    shared = [i for i, s_ in enumerate(specs) if not s_['own']]
+    if scenario == 'reparse' and len(shared) >= 2 and len(files) >= 2:
+        # ONE reader object parses a file, ANOTHER reader object on the same caller-supplied table pair parses another file,
+        # then the first one parses ITS file again (same thread map as before): the tables are that file's map again
+        f1, f2 = rnd.sample(range(len(files)), 2)
+        for r_, f_ in ((shared[0], f1), (shared[1], f2), (shared[0], f1), (shared[1], f1)):
+            gi = do_open(r_, f_)
+            while gi is not None and do_adv(gi):
+                pass
+            if failed():
+                break
+    elif scenario == 'sequential' or scenario == 'reparse':          # one parse after the other, on any reader
         for _ in range(rnd.randrange(2, 5)):
             gi = do_open()
             while gi is not None and do_adv(gi):
